@@ -241,7 +241,7 @@ func (c *Ctx) replayModel(id string, o *Obligation, model map[string]string) (bo
 	b.WriteString("\tdefer func() {\n\t\tif r := recover(); r != nil {\n\t\t\tt.Fatalf(\"VERIF-REPRODUCED: panic: %v\", r)\n\t\t}\n\t}()\n")
 	fmt.Fprintf(&b, "\t%s(%s)\n}\n", fn.Name(), strings.Join(args, ", "))
 	test := b.String()
-	work := filepath.Join(verifDir, ".work", id+"-replay")
+	work := filepath.Join(verifDir, ".work", id+os.Getenv("VERIF_WORKSUFFIX")+"-replay")
 	os.MkdirAll(work, 0o755)
 	src := filepath.Join(work, sanitize(o.Name)+"_test.go")
 	if len(src) > 200 {
